@@ -6,9 +6,13 @@
      x/vault/keeper/vault.go:679  GetAmountOfOtherToken
      x/liquidationsV2/keeper/liquidate.go:602  WithdrawAppReserveFundsFn, :721 MsgCloseDutchAuctionForBorrow
                           (only its transfer out of the auction account)
+     keeper/auctions.go   LimitOrderBid (the automatic fill of limit bids, one closure per auction),
+     keeper/bid.go        DepositLimitAuctionBid (the book the fill reads)
    The model follows the code AFTER the repairs fixes/C10-F2 (WithdrawAppReserveFundsFn returns an error
-   when the reserve record is smaller than the request) and fixes/C10-F3 (the incentive of an externally
-   initiated auction goes to ExternalKeeperAddress).
+   when the reserve record is smaller than the request), fixes/C10-F3 (the incentive of an externally
+   initiated auction goes to ExternalKeeperAddress), fixes/C10-F6 (LimitOrderBid re-reads the auction for
+   every limit bid of a closure and stops after a closing bid) and fixes/C10-F5 (a limit bid is charged
+   the amount actually bid).
    sdk.Dec values are their 10^18-scaled integers (Lib/DecArith).  Definitions only. *)
 From Comdex Require Import Lib.Base Lib.DecArith.
 
@@ -97,7 +101,11 @@ Record locked := mkLk {
   l_bonus : Z;      (* BonusToBeGiven *)
   l_init : Z;       (* InitiatorType: 0 vault, 1 lend, 2 external *)
   l_intk : bool;    (* IsInternalKeeper *)
-  l_cmst : bool     (* IsDebtCmst *)
+  l_cmst : bool;    (* IsDebtCmst *)
+  l_stuck : bool    (* lend-initiated only: the borrow carries a bridged (cross-pool) amount AND its lend position
+                       was deleted when the borrow was seized (UpdateLockedBorrows deletes a lend position that
+                       is used up).  MsgCloseDutchAuctionForBorrow then looks the deleted position up for the
+                       pool to return the bridged amount to and sends it to the module account "" : bank panic *)
 }.
 
 Record auction := mkAu {
@@ -228,7 +236,8 @@ Definition send (L : ledger) (from to amt : Z) : option ledger :=
 Record bstate := mkS {
   led : ledger;
   rsv : option Z;   (* AppReserveFunds(app, debt asset).TokenQuantity.Amount; None = no record *)
-  xfee : Z          (* AuctionLimitBidFeeDataExternal(debt asset).Amount (booked, coins stay in AUC_D) *)
+  xfee : Z;         (* AuctionLimitBidFeeDataExternal(debt asset).Amount (booked, coins stay in AUC_D) *)
+  nfee : Z          (* collector NetFeeCollectedData(app, debt asset).NetFeesCollected (0 = no record) *)
 }.
 
 (* what one successful bid did *)
@@ -250,8 +259,10 @@ Definition keeper_incentive (cf : acfg) (fee : Z) : Z := dtrunc_int (dmul (c_ki 
 Definition ext_incentive (cf : acfg) (lk : locked) : Z :=
   let ki := keeper_incentive cf (l_fee lk) in if ki >? 0 then ki else 0.
 
-(* the initiator-specific settlement of the closing bid; returns the ledger and the external fee book *)
-Definition settle (cf : acfg) (lk : locked) (L : ledger) (xf : Z) : outcome (ledger * Z) :=
+(* the initiator-specific settlement of the closing bid; returns the ledger, the external fee book and
+   the collector's net-fee book (SetNetFeeCollectedData ADDS the penalty that was sent to the collector:
+   the penalty net of the keeper incentive) *)
+Definition settle (cf : acfg) (lk : locked) (L : ledger) (xf nf : Z) : outcome (ledger * Z * Z) :=
   if l_init lk =? 2 then
     (* external: finalDebtToInitiator = TargetDebt - penalty; incentive to ExternalKeeperAddress, the
        rest of the penalty is booked as auction-module fees *)
@@ -262,7 +273,7 @@ Definition settle (cf : acfg) (lk : locked) (L : ledger) (xf : Z) : outcome (led
                        else do L' <- oerr 9 (send L AUC_D INI_D ki); Ok (L', l_fee lk - ki)
                      else Ok (L, l_fee lk));
     do L2 <- oerr 10 (send L1 AUC_D INI_D (l_target lk - l_fee lk));
-    Ok (L2, xf + pen)
+    Ok (L2, xf + pen, nf)
   else if l_init lk =? 0 then
     do (L1, pen) <- (if l_intk lk then
                         let ki := keeper_incentive cf (l_fee lk) in
@@ -272,13 +283,25 @@ Definition settle (cf : acfg) (lk : locked) (L : ledger) (xf : Z) : outcome (led
                         else Ok (L, l_fee lk)
                       else Ok (L, l_fee lk));
     do L2 <- (if pen >? 0 then oerr 11 (send L1 AUC_D COL_D pen) else Ok L1);
-    if pen <? 0 then Err 12 else Ok (L2, xf)
+    if pen <? 0 then Err 12 else Ok (L2, xf, nf + pen)   (* SetNetFeeCollectedData(app, debt asset, penalty sent) *)
   else
-    (* lend: MsgCloseDutchAuctionForBorrow sends TargetDebt to the pool module *)
+    (* lend: MsgCloseDutchAuctionForBorrow sends TargetDebt to the pool module; the rest of it moves coins
+       between the pool and the reserve module account only (observed together as POOL_D), except that the
+       return of a bridged amount panics when the lend position is gone (known finding C10-F7) *)
     do L1 <- oerr 13 (send L AUC_D POOL_D (l_target lk));
-    Ok (L1, xf).
+    if l_stuck lk then Panic else Ok (L1, xf, nf).
 
-Definition place_bid_core (cf : acfg) (lk : locked) (a : auction) (s : bstate)
+(* known-finding class C10-F7: a lend-initiated auction of a cross-pool borrow whose lend position was
+   used up can never be closed *)
+Definition kf_C10_7 (lk : locked) : bool :=
+  negb (l_init lk =? 0) && negb (l_init lk =? 2) && l_stuck lk.
+
+(* the bidder's payment: a market bid moves the coins now; an automatic bid (isAutoBid) moves nothing -
+   the limit bid's deposit has been in the auction account since MsgDepositLimitBid *)
+Definition pay (auto : bool) (L : ledger) (who amt : Z) : outcome ledger :=
+  if auto then Ok L else if amt >? 0 then oerr 5 (send L (BID_D who) AUC_D amt) else Ok L.
+
+Definition place_bid_gen (auto : bool) (cf : acfg) (lk : locked) (a : auction) (s : bstate)
            (who amt0 : Z) (wrong_denom : bool) (twa_d : Z)
   : outcome (bstate * option auction * bidres) :=
   if amt0 <=? 0 then Err 1 else                       (* ValidateBasic / ErrBidCannotBeZero *)
@@ -304,10 +327,10 @@ Definition place_bid_core (cf : acfg) (lk : locked) (a : auction) (s : bstate)
               (* WithdrawAppReserveFundsFn: the reserve must cover the shortfall *)
               if r - dgl <? 0 then Err 3 else
               do L1 <- (if dgl >? 0 then oerr 4 (send (led s) LIQ_D AUC_D dgl) else Ok (led s));
-              Ok (dal, left, mkS L1 (Some (r - dgl)) (xfee s), dgl)
+              Ok (dal, left, mkS L1 (Some (r - dgl)) (xfee s) (nfee s), dgl)
           end
         else Ok (amt, tot, s, 0));
-    do L2 <- (if amt1 >? 0 then oerr 5 (send (led s1) (BID_D who) AUC_D amt1) else Ok (led s1));
+    do L2 <- pay auto (led s1) who amt1;
     do L3 <- (if tot1 >? 0 then oerr 6 (send L2 AUC_C (BID_C who) tot1) else Ok L2);
     do L4 <- (if l_init lk =? 0 then
                 if l_target lk - l_fee lk <? 0 then Panic
@@ -317,8 +340,8 @@ Definition place_bid_core (cf : acfg) (lk : locked) (a : auction) (s : bstate)
     let ownleft := a_coll a - tot1 in
     do L5 <- (if ownleft >? 0 then oerr 8 (send L4 AUC_C OWN_C ownleft) else Ok L4);
     if (tot1 <? 0) || (amt1 <? 0) then Panic else     (* CreateUserBid: NewCoin *)
-    do (L6, xf) <- settle cf lk L5 (xfee s1);
-    Ok (mkS L6 (rsv s1) xf, None, mkR amt1 tot1 qb true exh topup)
+    do (L6, xf, nf) <- settle cf lk L5 (xfee s1) (nfee s1);
+    Ok (mkS L6 (rsv s1) xf nf, None, mkR amt1 tot1 qb true exh topup)
   else
     (* partial bid *)
     do q' <- opanic (conv_c (c_dd cf) dp amt (c_dc cf) (a_price a));
@@ -330,28 +353,19 @@ Definition place_bid_core (cf : acfg) (lk : locked) (a : auction) (s : bstate)
     let share := if share0 >? a_bonus a then a_bonus a else share0 in
     do qb' <- opanic (conv_c (c_dd cf) dp share (c_dc cf) (a_price a));
     let tot' := q' + qb' in
-    do L2 <- (if amt >? 0 then oerr 5 (send (led s) (BID_D who) AUC_D amt) else Ok (led s));
+    do L2 <- pay auto (led s) who amt;
     do L3 <- (if tot' >? 0 then oerr 6 (send L2 AUC_C (BID_C who) tot') else Ok L2);
     if (tot' <? 0) || (amt <? 0) then Panic else      (* CreateUserBid: NewCoin *)
-    Ok (mkS L3 (rsv s) (xfee s),
+    Ok (mkS L3 (rsv s) (xfee s) (nfee s),
         Some (mkAu (a_coll a - tot') (a_debt a - amt) (a_bonus a - share) (a_price a) (a_init a)
                    (a_pco a) (a_pdo a) (a_start a) (a_end a)),
         mkR amt tot' qb' false false 0).
 
-(* ------------------------------------------------------------------------------------------ *)
-(* 7. one auction's life: bids and block ticks, each atomic                                    *)
-
-Inductive op :=
-| Bid (who amt : Z) (wrong_denom : bool) (twa_d : Z)
-| Tick (now : Z) (pc pd : option Z).
-
-Record life := mkLife {
-  f_s : bstate;
-  f_a : option auction;   (* None once closed *)
-  f_paid : Z;             (* ghost: sum of debt paid by bidders *)
-  f_recv : Z;             (* ghost: sum of collateral received by bidders *)
-  f_top : Z               (* ghost: sum of reserve transfers *)
-}.
+(* the market bid (MsgPlaceMarketBid): the bidder pays now *)
+Definition place_bid_core (cf : acfg) (lk : locked) (a : auction) (s : bstate)
+           (who amt0 : Z) (wrong_denom : bool) (twa_d : Z)
+  : outcome (bstate * option auction * bidres) :=
+  place_bid_gen false cf lk a s who amt0 wrong_denom twa_d.
 
 (* PlaceDutchAuctionBid as a whole (bid.go:15-40, after fix 3349d05): the arithmetic and settlement
    core above runs only when the debt asset's oracle record is found and active
@@ -360,33 +374,154 @@ Record life := mkLife {
    the core repeats (they pass), so the wrapper is exactly the handler.  An erroring bid leaves the
    state unchanged, hence the history semantics [step] (whose [Bid]s are core bids) needs no case
    for a refused bid. *)
-Definition place_bid (cf : acfg) (lk : locked) (a : auction) (s : bstate)
+Definition place_bid_a (auto : bool) (cf : acfg) (lk : locked) (a : auction) (s : bstate)
            (who amt0 : Z) (wrong_denom dact : bool) (twa_d : Z)
   : outcome (bstate * option auction * bidres) :=
   if amt0 <=? 0 then Err 1 else
   if wrong_denom then Err 2 else
   if negb dact then Err 9 else                        (* ErrorPriceNotFound *)
-  place_bid_core cf lk a s who amt0 wrong_denom twa_d.
+  place_bid_gen auto cf lk a s who amt0 wrong_denom twa_d.
+
+Definition place_bid (cf : acfg) (lk : locked) (a : auction) (s : bstate)
+           (who amt0 : Z) (wrong_denom dact : bool) (twa_d : Z)
+  : outcome (bstate * option auction * bidres) :=
+  place_bid_a false cf lk a s who amt0 wrong_denom dact twa_d.
+
+(* ------------------------------------------------------------------------------------------ *)
+(* 7. the limit-bid book of the auction's market and the automatic fill                        *)
+
+(* UserLimitBid records of the market (debt asset, collateral asset) of the auction:
+   premium -> bidder -> DebtToken.Amount; 0 = no record (a stored record always holds a positive amount:
+   deposits are positive, a record that is used up is deleted).  [pool] = LimitBidProtocolData.BidValue. *)
+Definition book := Z -> Z -> Z.
+Definition bupd (bk : book) (p w v : Z) : book := fun p' w' => if (p' =? p) && (w' =? w) then v else bk p' w'.
+
+Definition MAX_PREMIUM : Z := 30.      (* types.MaxPremiumDiscount *)
+
+(* MsgDepositLimitBid -> DepositLimitAuctionBid (both assets exist) *)
+Definition deposit (s : bstate) (bk : book) (pool : Z) (who prem amt : Z) (wrong_denom : bool)
+  : outcome (bstate * book * Z) :=
+  if amt <=? 0 then Err 20 else                        (* ValidateBasic *)
+  if prem >? MAX_PREMIUM then Err 21 else              (* ErrorDiscountGreaterThanMaxDiscount *)
+  if wrong_denom then Err 22 else                      (* ErrorUnknownDebtToken *)
+  if prem <? 0 then Panic else                         (* premium.Uint64() in the store key *)
+  do L <- oerr 23 (send (led s) (BID_D who) AUC_D amt);
+  Ok (mkS L (rsv s) (xfee s) (nfee s), bupd bk prem who (bk prem who + amt), pool + amt).
+
+(* the discount of the posted price against the oracle price stored in the record, in whole percent:
+   (oracle - price).Quo(oracle).Mul(100).TruncateInt(); None = the posted price is not below the oracle
+   price (no fill) *)
+Definition premium_of (a : auction) : outcome (option Z) :=
+  if a_pco a >? a_price a then
+    do d <- opanic (dsub_c (a_pco a) (a_price a));
+    do q <- opanic (dquo_c d (a_pco a));
+    do p <- opanic (dmul_c q (dec_of_int 100));
+    Ok (Some (dtrunc_int p))
+  else Ok None.
+
+(* one bid of a fill: who, the auction record it was placed on, what it did *)
+Record fbid := mkFB { fb_who : Z; fb_before : auction; fb_res : bidres }.
+
+(* the loop of LimitOrderBid over the limit bids of the premium, in store order ([order] lists the
+   bidders in the order of the store keys; a bidder without a record at the premium is not listed by
+   GetUserLimitBidDataByPremium).  Every limit bid is placed - as an automatic bid of its whole amount -
+   on the auction as the previous bids of the closure left it; it is charged what PlaceDutchAuctionBid
+   actually bid (the debt amount of the user bid), deleted when used up; a closing bid ends the closure;
+   any error ends it too, and then the whole closure is rolled back (ApplyFuncIfNoError). *)
+Fixpoint fill_loop (cf : acfg) (lk : locked) (prem : Z) (order : list Z) (twa_d : Z) (dact : bool)
+         (a : auction) (s : bstate) (bk : book) (pool : Z)
+  : outcome (bstate * option auction * book * Z * list fbid) :=
+  match order with
+  | [] => Ok (s, Some a, bk, pool, [])
+  | w :: rest =>
+      let amt := bk prem w in
+      if amt <=? 0 then fill_loop cf lk prem rest twa_d dact a s bk pool
+      else
+        do (s1, a1, r) <- place_bid_a true cf lk a s w amt false dact twa_d;
+        if r_paid r >? amt then Err 24 else            (* ErrorMaxBidAmount: never more than the record holds *)
+        let bk1 := bupd bk prem w (amt - r_paid r) in
+        let pool1 := pool - r_paid r in
+        match a1 with
+        | None => Ok (s1, None, bk1, pool1, [mkFB w a r])
+        | Some b =>
+            do (s2, a2, bk2, pool2, log) <- fill_loop cf lk prem rest twa_d dact b s1 bk1 pool1;
+            Ok (s2, a2, bk2, pool2, mkFB w a r :: log)
+        end
+  end.
+
+(* one closure of LimitOrderBid = one auction *)
+Definition fill_closure (cf : acfg) (lk : locked) (order : list Z) (twa_d : Z) (dact : bool)
+           (a : auction) (s : bstate) (bk : book) (pool : Z)
+  : outcome (bstate * option auction * book * Z * list fbid) :=
+  do op <- premium_of a;
+  match op with
+  | None => Ok (s, Some a, bk, pool, [])
+  | Some prem =>
+      if prem <? 0 then Panic else                     (* premium.Uint64() in the store key *)
+      if negb (existsb (fun w => bk prem w >? 0) order) then Ok (s, Some a, bk, pool, [])   (* found = false *)
+      else fill_loop cf lk prem order twa_d dact a s bk pool
+  end.
+
+Definition log_paid (log : list fbid) : Z := fold_right (fun e acc => r_paid (fb_res e) + acc) 0 log.
+Definition log_recv (log : list fbid) : Z := fold_right (fun e acc => r_recv (fb_res e) + acc) 0 log.
+Definition log_top (log : list fbid) : Z := fold_right (fun e acc => r_topup (fb_res e) + acc) 0 log.
+(* what the limit bid of [w] was charged in a closure *)
+Definition log_charged (w : Z) (log : list fbid) : Z :=
+  fold_right (fun e acc => (if fb_who e =? w then r_paid (fb_res e) else 0) + acc) 0 log.
+
+(* ------------------------------------------------------------------------------------------ *)
+(* 8. one auction's life: market bids, block ticks, limit-bid deposits, fills - each atomic    *)
+
+Inductive op :=
+| Bid (who amt : Z) (wrong_denom : bool) (twa_d : Z)
+| Tick (now : Z) (pc pd : option Z)
+| Deposit (who prem amt : Z) (wrong_denom : bool)
+| Fill (order : list Z) (twa_d : Z) (dact : bool).
+
+Record life := mkLife {
+  f_s : bstate;
+  f_a : option auction;   (* None once closed *)
+  f_paid : Z;             (* ghost: sum of debt paid by bidders (market bids: coins; fills: charged to limit bids) *)
+  f_recv : Z;             (* ghost: sum of collateral received by bidders *)
+  f_top : Z;              (* ghost: sum of reserve transfers *)
+  f_book : book;
+  f_pool : Z
+}.
 
 Definition step (cf : acfg) (lk : locked) (f : life) (o : op) : life :=
+  match o with
+  | Deposit who prem amt wd =>
+      match deposit (f_s f) (f_book f) (f_pool f) who prem amt wd with
+      | Ok (s', bk', pool') => mkLife s' (f_a f) (f_paid f) (f_recv f) (f_top f) bk' pool'
+      | _ => f                                         (* the message's cache context is dropped *)
+      end
+  | _ =>
   match f_a f with
   | None => f                                          (* GetAuction fails; the iterator skips it *)
   | Some a =>
       match o with
-      | Tick now pc pd => mkLife (f_s f) (Some (tick cf lk now pc pd a)) (f_paid f) (f_recv f) (f_top f)
+      | Tick now pc pd => mkLife (f_s f) (Some (tick cf lk now pc pd a)) (f_paid f) (f_recv f) (f_top f) (f_book f) (f_pool f)
       | Bid who amt wd twa =>
           match place_bid_core cf lk a (f_s f) who amt wd twa with
           | Ok (s', a', r) =>
-              mkLife s' a' (f_paid f + r_paid r) (f_recv f + r_recv r) (f_top f + r_topup r)
+              mkLife s' a' (f_paid f + r_paid r) (f_recv f + r_recv r) (f_top f + r_topup r) (f_book f) (f_pool f)
           | _ => f                                     (* the message's cache context is dropped *)
           end
+      | Fill order twa dact =>
+          match fill_closure cf lk order twa dact a (f_s f) (f_book f) (f_pool f) with
+          | Ok (s', a', bk', pool', log) =>
+              mkLife s' a' (f_paid f + log_paid log) (f_recv f + log_recv log) (f_top f + log_top log) bk' pool'
+          | _ => f                                     (* the closure's cache context is dropped *)
+          end
+      | Deposit _ _ _ _ => f
       end
+  end
   end.
 
 Definition run (cf : acfg) (lk : locked) (f : life) (ops : list op) : life := fold_left (step cf lk) ops f.
 
 (* ------------------------------------------------------------------------------------------ *)
-(* 8. property predicates evaluated on OBSERVATIONS (of the implementation, in the runner)     *)
+(* 9. property predicates evaluated on OBSERVATIONS (of the implementation, in the runner)     *)
 
 (* price clause between two consecutive observations of one auction with the same StartTime:
    non-increasing, at most the start price, at least the configured end price *)
@@ -411,3 +546,20 @@ Definition holds_C10_custody (residual_c residual_d : Z) : bool := (residual_c =
 
 (* the app reserve: the record is never negative and the liquidation module holds at least that much *)
 Definition holds_C10_reserve (record liq_balance : Z) : bool := (0 <=? record) && (record <=? liq_balance).
+
+(* a fill, per limit bid: the record falls by exactly what its automatic bids bid (the debt amounts of the
+   user bids PlaceDutchAuctionBid created for that bidder in the closure) and never below zero
+   (proved for the model as Properties/C10.v:c10_fill_charges) *)
+Definition holds_C10_fill_charge (rec_before rec_after bid_sum : Z) : bool :=
+  (rec_before - rec_after =? bid_sum) && (0 <=? rec_after).
+
+(* the limit-bid pool: LimitBidProtocolData.BidValue is the sum of the records *)
+Definition holds_C10_pool (bid_value rec_sum : Z) : bool := bid_value =? rec_sum.
+
+(* the penalty of a closing bid ([init]: 0 vault, 2 external, otherwise lend; [fee] = LockedVault.FeeToBeCollected):
+   vault - what reached the collector plus what the keeper got is the penalty, and the collector's net-fee
+   book grows by exactly what reached the collector; otherwise the collector is not involved
+   (proved for the model as Properties/C10.v:c10_penalty_split) *)
+Definition holds_C10_penalty (init fee d_collector d_keeper d_netfee : Z) : bool :=
+  if init =? 0 then (d_collector + d_keeper =? fee) && (0 <=? d_keeper) && (0 <=? d_collector) && (d_netfee =? d_collector)
+  else (d_collector =? 0) && (d_netfee =? 0).
